@@ -75,6 +75,9 @@ private:
 	asio::ip::tcp::socket m_server_connection;
 	// true while there is an outstanding write operation to the server
 	bool m_writing_to_server;
+	// true while the server's name is being looked up or the connection to it
+	// is being established
+	bool m_connecting = false;
 
 	// receive buffer for requests from the client. i.e. client -> proxy (us) -> server
 	char m_client_in_buffer[65536];
